@@ -36,6 +36,7 @@ int    sim_alloc_is_live(const void *p);
 size_t sim_alloc_size_of(const void *p);    /* 0 if unknown */
 /* iterate live blocks: calls cb(ptr,size,op_index) */
 void   sim_alloc_foreach_live(void (*cb)(void *p, size_t sz, int op, void *key), void *key);
+uintptr_t sim_alloc_site_of(const void *p);  /* image-relative return address of the allocating call */
 void   sim_alloc_free_all_live(void);       /* release abandoned blocks (after a violation) */
 
 /* ---- abort seam ---- */
